@@ -89,9 +89,26 @@ def move_events(ctx: Ctx):
             continue
         reps = _reports(p)
         moved_commits = [e for e in p.events if e.name == "modify_vehicle" and not e.deferred and len(e.call.args) >= 2 and flow.calls_in(e.call.args[1], "tick_distance_traveled_km")]
+        committed = moved_commits[0].call.args[1] if moved_commits else None
+        if not moved_commits:
+            # the advanced vehicle handed to a package function that writes its parameter into the state (the out-of-energy helper)
+            from .c06 import _commits_param
+            for e in p.events:
+                c = e.call
+                if e.deferred or not isinstance(c, ast.Call) or e.name == "modify_vehicle":
+                    continue
+                callee = ctx.repo.resolve_call(fn.module, c) or (fn.module.funcs.get(c.func.id) if isinstance(c.func, ast.Name) else None)
+                if callee is None or isinstance(callee.node, ast.Lambda):
+                    continue
+                ps = callee.params
+                for pn, a in [(ps[i], a) for i, a in enumerate(c.args) if i < len(ps)] + [(k.arg, k.value) for k in c.keywords if k.arg in ps]:
+                    if flow.calls_in(a, "tick_distance_traveled_km") and _commits_param(ctx.repo, callee, pn):
+                        moved_commits, committed = [e], a
+                        break
+                if moved_commits:
+                    break
         if moved_commits:
             n += 1
-            committed = moved_commits[0].call.args[1]
             ok = len(reps) == 1
             why = f"{len(reps)} reports filed"
             if ok:
